@@ -62,12 +62,27 @@ theorem one_category (id : Nat) (hk : (row id).exists_ = true) :
     · exact hi
   have := row_ok id h
   simp only [rowOk, Bool.and_eq_true, beq_iff_eq] at this
-  obtain ⟨⟨⟨_, h9⟩, _⟩, _⟩ := this
+  obtain ⟨⟨⟨_, h9, _⟩, _⟩, _⟩ := this
   rw [hid] at h9
   refine ⟨h9, ?_⟩
   intro h0; rw [h0] at h9
   unfold categoryOf at h9
   split at h9 <;> simp at h9
+
+/-- …and within the category, the product family (type) is one of those of the id block: 0x02xx BMV; 0xA38x BMV Smart
+    or SmartShunt; 0x03xx BlueSolar; 0xA0xx BlueSolar / SmartSolar MPPT; 0xA1xx their VE.Can variants; 0xA2xx Phoenix
+    Inverter (Smart); 0xA34x Phoenix Smart IP43 Charger -/
+theorem family_of_id_block (id : Nat) (hk : (row id).exists_ = true) : (row id).type ∈ rangeTypes id := by
+  have h : row id ≠ defaultProduct id := by intro h; rw [h] at hk; simp [defaultProduct] at hk
+  have hid : (row id).id = id := by
+    rcases productRow_cases Gen.products id with h' | ⟨_, hi⟩
+    · exact absurd h' h
+    · exact hi
+  have := row_ok id h
+  simp only [rowOk, Bool.and_eq_true, beq_iff_eq] at this
+  obtain ⟨⟨⟨_, _, h9⟩, _⟩, _⟩ := this
+  rw [hid] at h9
+  simpa using h9
 
 /-- **Panel numbers**: minus one for both numbers for non-solar products (and unknown ids), else the two numbers of the designation. -/
 theorem panel_numbers (id : Nat) :
